@@ -88,8 +88,8 @@ var clRe = regexp.MustCompile(`^[+-]?[0-9]+$`)
 // (a Go twin of the Lean `endOfHeaders`/`addTrailerKeys` and of the C08 framing theorems):
 //
 //	Transfer-Encoding present  => exactly one field line, value "chunked" (case-insensitive, OWS trimmed), else reject
-//	else Content-Length present => the first value, trailing spaces removed, is [+-]?DIGIT+ with 0 <= n < 2^63, else
-//	                               reject (an empty first value counts as absent: documented leniency)
+//	else Content-Length present => all values are equal (trailing spaces aside) and the value is [+-]?DIGIT+ with
+//	                               0 <= n < 2^62, else reject (an empty value is non-numeric)
 //	chunked and Trailer present => no announced name is Transfer-Encoding, Trailer or Content-Length, else reject
 //
 // It returns (reason to reject or "", reason to reject because of the trailer or "", expected OnContentLength value).
@@ -115,8 +115,13 @@ func FramingRule(hdrs [][2]string) (reject, rejectTrailer string, wantCL int64) 
 			return fmt.Sprintf("unsupported Transfer-Encoding %q", te[0]), "", -1
 		}
 		chunked = true
-	} else if len(cl) > 0 && cl[0] != "" {
+	} else if len(cl) > 0 {
 		v := strings.TrimRight(cl[0], " ")
+		for _, o := range cl[1:] {
+			if strings.TrimRight(o, " ") != v {
+				return fmt.Sprintf("differing Content-Length values %q", cl), "", -1
+			}
+		}
 		if !clRe.MatchString(v) {
 			return fmt.Sprintf("non-numeric Content-Length %q", cl[0]), "", -1
 		}
